@@ -228,7 +228,7 @@ fn le32(b: &[u8]) -> u32 {
 
 fn exec15(cx: &mut Ctx, c: &C15Case) {
     let (key, nonce) = super::key_nonce(c.kseed, if c.nonce12 { 12 } else { 8 });
-    let sigp = format!("C15|{}", api::profile());
+    let sigp = if cx.prop == "C20" { format!("C20|block-api|{}", api::profile()) } else { format!("C15|{}", api::profile()) };
     let n = nonce.len();
     let mut m = Model { key, d: [0, if n == 12 { le32(&nonce[0..]) } else { 0 }, le32(&nonce[n - 8..]), le32(&nonce[n - 4..])] };
     api::force_backend(c.fb);
@@ -342,9 +342,37 @@ fn exec15(cx: &mut Ctx, c: &C15Case) {
                         o.d[2] ^= 1 << (*b % 32);
                         "d0-and-d2"
                     }
-                    _ => {
+                    17 => {
                         o.d[0] = o.d[0].wrapping_sub(1 + *b as u32);
                         "d0-only-far"
+                    }
+                    // the same difference in several key words (differences that would cancel in
+                    // an equality folded with the wrong operator)
+                    18 => {
+                        let x = 1 + (*b as u8).wrapping_mul(37) % 255;
+                        o.key.iter_mut().for_each(|k| *k ^= x);
+                        "key-repeated-byte-difference"
+                    }
+                    19 => {
+                        // same offset in every 8-byte word
+                        for q in 0..4 {
+                            o.key[8 * q + (*b as usize % 8)] ^= 0x40;
+                        }
+                        "key-same-offset-in-every-quadword"
+                    }
+                    20 => {
+                        // both halves of one key row, or both key rows, differ identically
+                        let w = *b as usize % 2;
+                        for q in [w, w + 2, w + 4, w + 6] {
+                            o.key[4 * q] ^= 1 << (*b % 8);
+                        }
+                        "key-rows-differ-identically"
+                    }
+                    _ => {
+                        let x = 1u32 << (*b % 32);
+                        o.d[2] ^= x;
+                        o.d[3] ^= x;
+                        "d2-and-d3-same-difference"
                     }
                 };
                 let other = make(&o.key, o.d);
@@ -395,22 +423,36 @@ fn exec15(cx: &mut Ctx, c: &C15Case) {
     api::force_backend(0);
 }
 
+fn gen15(rng: &mut Rng, fb: u8) -> C15Case {
+    let nops = 2 + rng.below(if cfg!(miri) { 5 } else { 18 }) as usize;
+    let mut ops = Vec::new();
+    for _ in 0..nops {
+        ops.push(match rng.below(10) {
+            0..=2 => Op::Set(rng.below(2) as u32, rng.edge64()),
+            3 => Op::Get(rng.below(2) as u32),
+            4 | 5 => Op::R1(rng.below(11) as u32),
+            6 => Op::R4(rng.below(11) as u32),
+            _ => Op::Eq(rng.below(22) as u8, rng.below(32) as u8),
+        });
+    }
+    C15Case { fb, kseed: rng.u64(), nonce12: rng.below(2) == 0, ops }
+}
+
+/// One block-API history for the per-configuration conformance transcript of C20.
+pub fn smoke15(cx: &mut Ctx, rng: &mut Rng, class: &str) {
+    let c = gen15(rng, 0);
+    cx.log.announce(&format!("algo=blockapi {}", c.desc()));
+    cx.log.nontrivial();
+    cx.log.class(class);
+    exec15(cx, &c);
+}
+
 fn run15(cx: &mut Ctx) {
     let mut rng = cx.rng("C15");
     let levels = api::backend_levels();
     for _ in 0..cx.budget {
-        let nops = 2 + rng.below(if cfg!(miri) { 5 } else { 18 }) as usize;
-        let mut ops = Vec::new();
-        for _ in 0..nops {
-            ops.push(match rng.below(10) {
-                0..=2 => Op::Set(rng.below(2) as u32, rng.edge64()),
-                3 => Op::Get(rng.below(2) as u32),
-                4 | 5 => Op::R1(rng.below(11) as u32),
-                6 => Op::R4(rng.below(11) as u32),
-                _ => Op::Eq(rng.below(18) as u8, rng.below(32) as u8),
-            });
-        }
-        let c = C15Case { fb: *rng.pick(levels), kseed: rng.u64(), nonce12: rng.below(2) == 0, ops };
+        let fb = *rng.pick(levels);
+        let c = gen15(&mut rng, fb);
         cx.log.announce(&c.desc());
         cx.log.nontrivial();
         cx.log.class(&format!("config={}-{}/{}", api::build_kind(), api::profile(), api::BACKEND_NAMES[c.fb as usize]));
